@@ -959,3 +959,22 @@ impl<B: Buf> fmt::Debug for Prioritized<B> {
             .finish()
     }
 }
+
+#[cfg(feature = "verif-hooks")]
+impl Prioritize {
+    pub(super) fn verif_snap(&self, snap: &mut crate::verif::SendSnap) {
+        let (w, a) = self.flow.verif_raw();
+        snap.conn_window = w;
+        snap.conn_available = a;
+        snap.pending_send_empty = self.pending_send.is_empty();
+        snap.pending_capacity_empty = self.pending_capacity.is_empty();
+        snap.pending_open_empty = self.pending_open.is_empty();
+        snap.last_opened_id = self.last_opened_id.into();
+        snap.in_flight_data_frame = match self.in_flight_data_frame {
+            InFlightData::Nothing => "Nothing",
+            InFlightData::DataFrame(_) => "DataFrame",
+            InFlightData::Drop => "Drop",
+        };
+        snap.max_buffer_size = self.max_buffer_size;
+    }
+}
